@@ -57,12 +57,12 @@ def run(rep, ctx, tier):
             from ..rules import carried as R1P
             nl, nc = R1P.run(rep, ctx, a.key, [a.body.id], a.ctx_adt, "R1p")
             rep.count("R1p loops", nl)
-            if nl < 1:
-                rep.add("R1p", "%s:per-item-fresh:floor" % a.key, False, "no loop found in %s or what it calls (fail closed)" % a.key, a.body.span)
+            # (no floor: a refactoring that turns the per-pair loop into an iterator pipeline leaves nothing to examine)
         if a.method in ("batch_check", "check_combinations"):
             # the claim of every query is looked up: the lookups are driven by the query set
             from ..rules import visited as R5V
             rep.count("claim lookups", R5V.run(rep, ctx, a, "R5v"))
+            R5V.run_update_once(rep, ctx, a, "R5u")
             # no verifier adds entries to (a copy of) the claims it was handed (shared with C17)
             from ..rules import noinsert as R5I
             R5I.run(rep, ctx, a, "R5i")
